@@ -138,6 +138,32 @@ def lib_call(fn, *a, **k):
         )
 
 
+def guarded(check):
+    """Safety net around a property check: an exception that escapes from *library* code called by the
+    harness (some panoptica frame after the last harness frame in the traceback) is a violation - every
+    check feeds valid inputs only and every property implies that the call completes; an exception raised
+    by the harness' own code stays a harness error (exit 2)."""
+
+    def wrapped(case, stats):
+        try:
+            return check(case, stats)
+        except (Violation, HarnessError):
+            raise
+        except Exception as e:  # noqa
+            if type(e).__module__.startswith("hypothesis"):
+                raise
+            frames = traceback.extract_tb(e.__traceback__)
+            last_pv = max((i for i, fr in enumerate(frames) if "/pv/" in fr.filename and "/panoptica/" not in fr.filename), default=-1)
+            lib = [fr for fr in frames[last_pv + 1:] if "/panoptica/" in fr.filename]
+            if lib:
+                fr = lib[-1]
+                where = f"{os.path.basename(fr.filename)}:{fr.name}"
+                raise Violation(f"library raised {type(e).__name__} at {where}: {str(e)[:200]}", sig=f"raise:{type(e).__name__}@{where}")
+            raise
+
+    return wrapped
+
+
 # ----------------------------------------------------------------------------- stats
 def canon(obj) -> str:
     return json.dumps(obj, sort_keys=True, default=_json_default, separators=(",", ":"))
@@ -217,6 +243,8 @@ def hyp_search(check, strategy, n_examples: int, seed: int, stats: Stats, shrink
         print_blob=False,
         verbosity=hypothesis.Verbosity.quiet,
     )
+    check = guarded(check)
+
     @given(strategy)
     def run(case):
         try:
@@ -242,6 +270,7 @@ def hyp_search(check, strategy, n_examples: int, seed: int, stats: Stats, shrink
 
 def enum_search(check, cases, stats: Stats):
     """Exhaustive driver: first failure returned (cases are already minimal-ish)."""
+    check = guarded(check)
     for case in cases:
         try:
             check(case, stats)
